@@ -157,6 +157,7 @@ def run(ctx):
                            first_bad_call_site=viol[0][1] if viol else None),
                       exp, label, key='admissible %s %s' % (core, method))
     evalsites(ctx)
+    after_setter(ctx)
     stepsign(ctx)
     rep.notes['exhaustive'] = True
     rep.notes['trusted_base'] = ['python ast', 'ndverif abstract interpreter and numpy summaries']
@@ -212,6 +213,54 @@ def evalsites(ctx):
                       {'calls': len(sites), 'sites': sorted({s for s, _ in sites}), 'offending': bad[:4]},
                       'f is called only inside difference quotients, or at x itself from ' + ', '.join(ALLOWED_AT_X),
                       label, key='evalsite %s' % (bad[0][0] if bad else ''))
+
+
+def after_setter(ctx):
+    """The promise of the *current* method holds after `obj.method = ...` on a used object."""
+    from ..pipeline import Pipeline
+    rep, facts = ctx.rep, ctx.facts
+    core_mod = facts.repo.module('core')
+    rep.rule('R-ADMISSIBLE-SETTER', 'after changing the method of a used object the evaluation points obey the promise of the new '
+             'method (forward >= 0, backward <= 0, central symmetric, complex / multicomplex without real component)', 6)
+    pairs = [('central', 'forward'), ('central', 'backward'), ('forward', 'backward'), ('backward', 'forward'),
+             ('forward', 'central'), ('central', 'complex'), ('complex', 'multicomplex')]
+    for cls, dim in (('Derivative', None), ('Jacobian', 2), ('Hessdiag', 2), ('Hessian', 2)):
+        for m1, m2 in pairs:
+            if m2 == 'complex' and cls in ('Hessdiag', 'Hessian'):
+                continue     # only the default first-derivative complex rule promises purely imaginary steps
+            P = Pipeline(facts.repo)
+            I = P.interp
+            gen = P.sym_generator('Min')
+            try:
+                obj, x = P.build(cls, m1, None if cls == 'Hessian' else 2, n=(1 if cls == 'Derivative' else None), step=gen, dim=dim)
+                I.getattr(obj, '_derivative')(x, (), {})
+                I.setattr(obj, 'method', m2)
+                del P.calls[:]
+                I.getattr(obj, '_derivative')(x, (), {})
+            except InterpRaise as exc:
+                rep.violation('R-ADMISSIBLE-SETTER', 'core.%s.method (setter)' % cls, core_mod.relpath,
+                              {'raises': exc.exc_name, 'message': exc.msg[:100]}, 'the call succeeds', '%s/%s->%s' % (cls, m1, m2),
+                              key='setter raises')
+                continue
+            offs = []
+            seen = set()
+            for key, where, kind in P.calls:
+                if key not in seen:
+                    seen.add(key)
+                    offs.append(key)
+            infos = [(o, classify_offset(tuple(p for p in o if isinstance(p, Poly)))) for o in offs]
+            if m2 == 'forward':
+                bad = [o for o, inf in infos if inf['signs'] - {1} or inf['has_imag'] or inf['has_j']]
+            elif m2 == 'backward':
+                bad = [o for o, inf in infos if inf['signs'] - {-1} or inf['has_imag'] or inf['has_j']]
+            elif m2 == 'central':
+                keys = set(offs)
+                bad = [o for o, inf in infos if inf['has_imag'] or inf['has_j'] or (inf['nz'] and neg_offset(o) not in keys)]
+            else:
+                bad = [o for o, inf in infos if inf['has_real']]
+            rep.check(not bad, 'R-ADMISSIBLE-SETTER', 'core.%s.method (setter)' % cls, core_mod.relpath,
+                      {'points': [tuple(repr(p) for p in o) for o in offs][:6], 'inadmissible': [tuple(repr(p) for p in o) for o in bad][:3]},
+                      'evaluation points of method %s' % m2, '%s/%s->%s' % (cls, m1, m2), key='setter %s' % m2)
 
 
 def stepsign(ctx):
